@@ -297,6 +297,22 @@ def pack_rule(ctx, crate):
                 okh = all(val is not None and bool(val) == (x & 3 != 0) for x, val in zip(range(64), vals))
                 why = "is_not_first_cell_of_larger_cell(h) = (h & 3 != 0), read at h = 0..63"
         ctx.report(clause, "pack:%s" % hf.rsplit("::", 1)[-1], okh, why if okh else "%s is not that predicate: %s — the search for a group to merge starts on the wrong cells (four full siblings stay unmerged)" % (hf, show(rh.ret)[:80] if rh.returns else "?"), at=hb.span, kind="N")
+    # the passes are repeated until one of them merges nothing: the outer loop is left only on the
+    # test "the number of entries did not change" (a merge can complete a group one level up, whatever
+    # the number of merges of the pass)
+    loops = b.natural_loops(); succ = b.succ()
+    if loops:
+        head, body_ = max(loops.items(), key=lambda kv: len(kv[1]))
+        exits = sorted({x for x in body_ for t_ in succ[x] if t_ not in body_ and b.blocks[t_]["term"]["k"] not in ("unreachable", "resume", "abort")
+                        and not b.blocks[t_].get("cleanup")})
+        conds = {loc[1]: d for d, loc in e.branches if loc[0] == fn}
+        def is_fixpoint_test(d):
+            return d is not None and d[0] == 'op' and d[1] in ('ne', 'eq') and d[3][0] == 'phi' and d[4][0] == 'phi'
+        # panics (index out of bounds) leave the loop too: only edges to ordinary blocks count
+        normal = [x for x in exits if b.blocks[x]["term"]["k"] == "switch"]
+        okx = len(normal) == 1 and is_fixpoint_test(conds.get(normal[0]))
+        ctx.report(clause, "pack:passes-until-nothing-merges", okx, "the outer loop is left only on %s" % show(conds.get(normal[0]))[:60] if okx else
+                   "the outer loop of pack can also be left on %s: a pass that still merged something may be the last one (four full siblings can remain)" % [show(conds.get(x))[:60] for x in normal if not is_fixpoint_test(conds.get(x))], at=b.span, kind="N")
     ctx.report(clause, "pack:base-cells-never-merged", has0, "the search for a first sibling skips cells with depth == 0", at=b.span, kind="N")
 
 
@@ -354,6 +370,25 @@ def buffer_merge(ctx, crate):
         ok = okd and okh and fl == fd("is_full") and dm == fd("depth")
         why = "writes build_raw_value(depth - dd, h >> 2 dd, is_full, depth) with h the first hash of the run" if ok else "the merged value is build_raw_value(%s, %s, %s, %s)" % tuple(show(a)[:50] for a in evs[0].args)
     ctx.report(clause, "buff_to_bmoc:merged-cell", ok, why, at=b.span, kind="N")
+    # the two cursors: the write index advances by one per run, the read index by the length 4^dd of the run
+    if len(evs) == 1 and len(seq) == 1 and ok:
+        from rules.common import loop_var_range, feval
+        top = [x for x in e.events.values() if len(x.site) == 2 and x.callee]
+        wr = [x for x in top if strip_generics(x.callee).endswith("::index_mut") and len(x.args) == 2]
+        kidx = wr[0].args[1] if len(wr) == 1 else None
+        okk = kidx is not None and kidx[0] == 'phi' and loop_var_range(e, kidx) is not None and loop_var_range(e, kidx)[0] == C('usize', 0)
+        # read cursor: the index of the hash handed to the run-length query
+        Hs = seq[0].args[1]
+        rd = [x for x in top if strip_generics(x.callee).endswith("::index") and len(x.args) == 2 and Hs == ('deref', x.ret)]
+        iidx = rd[0].args[1] if len(rd) == 1 else None
+        oki = False
+        if iidx is not None and iidx[0] == 'phi':
+            ops_ = e.phi_ops.get(iidx, ())
+            steps = [o for o in ops_ if o[0] == 'op' and o[1] == 'add' and o[3] == iidx]
+            if len(steps) == 1 and C('usize', 0) in ops_:
+                oki = all(feval(steps[0][4], {DD: k_}, e) == 4 ** k_ for k_ in (0, 1, 2, 3))
+        ctx.report(clause, "buff_to_bmoc:cursors", okk and oki, "write index: 0, +1 per run; read index: 0, +4^dd per run" if okk and oki else
+                   "cursors of buff_to_bmoc: write index steps by one from 0: %s; read index steps by 4^dd from 0: %s" % (okk, oki), at=b.span, kind="N")
 
 
 def run(ctx):
